@@ -2,11 +2,15 @@
 (* Model for C13: one state per case.  Scenario-id cases are initial states; a     *)
 (* solution case starts with one (model, type, cost) triple and Extend appends     *)
 (* further triples (cooperative solutions) up to MaxList.                          *)
+(* Reorder gives the planning problem solutions of a cooperative solution other    *)
+(* planning problem ids, in every order (non-ascending, 12 before 3, ...).         *)
 (* History dimension: SetField assigns one public field of an id another value of  *)
 (* the scope (one step; the object was printed before the assignment).             *)
 EXTENDS BenchmarkId
 CONSTANTS Countries, MapNames, MapIds, Configs, MaxList, GenMode,
-          SetAll,               \* TRUE: SetField from every id of the scope; FALSE: from the ids generation executes
+          Wide,                 \* TRUE (thorough): SetField from every id, Reorder on lists with <= 1 triple outside Reps;
+                                \* FALSE: SetField from the ids generation executes, Reorder on lists of Reps
+          DEV_SortedIdLists,    \* deviation (seeded, not shipped): the id lists are printed in ascending planning-problem-id order
           DEV_SpellingInEq      \* deviation of the shipped code: == compares the int / list spelling of the prediction ids
 
 VARIABLES c
@@ -46,13 +50,24 @@ Reps == { [m |-> "PM", t |-> 1, c |-> "JB1"], [m |-> "ST", t |-> 2, c |-> "SA1"]
 NonReps(vs) == Cardinality({i \in 1..Len(vs) : vs[i] \notin Reps})
 
 SolOf(x) == [vs |-> [i \in 1..Len(x.vs) |-> [m |-> x.vs[i].m, t |-> x.vs[i].t]],
-             cs |-> [i \in 1..Len(x.vs) |-> x.vs[i].c], f |-> x.f]
+             cs |-> [i \in 1..Len(x.vs) |-> x.vs[i].c], pp |-> x.pp, f |-> x.f]
+
+(* planning problem ids: 1..n in order by default; Reorder explores every injective list over PpIds *)
+PpIds == {3, 7, 12}
+DefaultPp(n) == [i \in 1..n |-> i]
+PpOrders(n) == {q \in [1..n -> PpIds] : \A i, j \in 1..n : i # j => q[i] # q[j]}
+Distinct(vs) == \A i, j \in 1..Len(vs) : i # j => vs[i] # vs[j]
 
 Init == \/ c \in IdCases
-        \/ \E sd \in SolSeeds, t \in Triples : c = [kind |-> "sol", pk |-> sd.pk, lim |-> sd.lim, f |-> sd.f, vs |-> <<t>>]
-Extend == /\ c.kind = "sol" /\ Len(c.vs) < c.lim /\ Len(c.vs) < MaxList
+        \/ \E sd \in SolSeeds, t \in Triples : c = [kind |-> "sol", pk |-> sd.pk, lim |-> sd.lim, f |-> sd.f, vs |-> <<t>>, pp |-> <<1>>]
+Extend == /\ c.kind = "sol" /\ Len(c.vs) < c.lim /\ Len(c.vs) < MaxList /\ c.pp = DefaultPp(Len(c.vs))
           /\ \E t \in Triples : /\ GenMode => NonReps(Append(c.vs, t)) <= 1
-                                /\ c' = [c EXCEPT !.vs = Append(@, t)]
+                                /\ c' = [c EXCEPT !.vs = Append(@, t), !.pp = DefaultPp(Len(c.vs) + 1)]
+(* model: lists with at most one triple outside Reps; generation: lists of distinct Reps (they differ in model, cost
+   and mostly type, so a misaligned list is visible) *)
+Reorder == /\ c.kind = "sol" /\ Len(c.vs) >= 2 /\ c.pp = DefaultPp(Len(c.vs))
+           /\ IF GenMode THEN NonReps(c.vs) = 0 /\ Distinct(c.vs) ELSE IF Wide THEN NonReps(c.vs) <= 1 ELSE NonReps(c.vs) = 0
+           /\ \E q \in PpOrders(Len(c.vs)) : c' = [c EXCEPT !.pp = q]
 (* values a field can be assigned; for the prediction ids also how the value is spelled *)
 SetValues(fld) ==
   CASE fld = "coop"    -> {[v |-> x, pk |-> ""] : x \in {0, 1}}
@@ -68,7 +83,7 @@ GenBase(f) == f.map = Word("Test") /\ f.map_id = 1 /\ f.country \in {"ZAM", "DEU
 (* b = the id the object is after the assignment (differs from the normalised f in the one field);
    bpk = how the constructor is handed b's prediction ids when the value is fetched from a constructed b *)
 SetField ==
-  /\ c.kind = "id" /\ (GenMode \/ ~SetAll => GenBase(c.f))
+  /\ c.kind = "id" /\ (GenMode \/ ~Wide => GenBase(c.f))
   /\ \E fld \in FieldNames : \E x \in SetValues(fld) :
        LET na == Normalize(c.f)
            b  == [na EXCEPT ![fld] = x.v]
@@ -76,7 +91,7 @@ SetField ==
           /\ c' = [kind |-> "set", pk |-> c.pk, f |-> c.f, fld |-> fld, b |-> b,
                    bpk |-> IF fld = "pred" THEN x.pk
                            ELSE IF b.pred = <<>> THEN "none" ELSE IF Len(b.pred) = 1 THEN "int" ELSE "list"]
-Next == Extend \/ SetField
+Next == Extend \/ Reorder \/ SetField
 Spec == Init /\ [][Next]_vars
 
 LawValid      == CASE c.kind = "id" -> Valid(c.f) [] c.kind = "sol" -> ValidSol(SolOf(c))
@@ -88,6 +103,10 @@ LawReprint    == c.kind = "id" => ReprintLaw(c.f)
 LawSolGrammar == c.kind = "sol" => SolGrammarLaw(SolOf(c))
 LawSolParse   == c.kind = "sol" => SolParseLaw(SolOf(c))
 LawSolReprint == c.kind = "sol" => SolReprintLaw(SolOf(c))
+(* the printed lists are positional.  ImplPrintSol is PrintSol unless the deviation prints them sorted by planning
+   problem id while the planning problem solutions (and the written trajectory nodes) keep their order *)
+ImplPrintSol(s) == IF DEV_SortedIdLists THEN PrintSol(Arrange(s, SortSeq(s.pp, LAMBDA a, b : a < b))) ELSE PrintSol(s)
+LawSolAligned == c.kind = "sol" => SolAlignLaw(SolOf(c), ImplPrintSol(SolOf(c)))
 LawSolAll     == c.kind = "sol" => SolLaws(SolOf(c))
 (* after an assignment the object is the id After(...) and nothing else: its text is PrintId of that record (the
    specification has no cache), it conforms to the grammar, parses back to itself and reprints identically *)
